@@ -819,6 +819,8 @@ def _run(c, rebound, exe, W, d):
                 if rr.returncode != 0 or got != want:
                     V("c_api:index", "C API (create_from_file + create_from_simulationarchive) exposes %s, the file holds %s" % (got[:4], want[:4]), dict(history=hist, rc=rr.returncode))
             tracker.add(row)
+            if row["first"] and row["eventA"] and row["eventB"]:
+                tri_done.add((row["first"], row["eventA"], row["eventB"]))
             stats["pairwise_histories"] += 1
         key = (hist["structural"] or hist["auto"] or "free", hist["init"]["integrator"], n, tuple(sorted(van)), tuple(sorted(app)))
         c.count(key, nontrivial=n >= 2, n=n)
@@ -906,8 +908,17 @@ def _run(c, rebound, exe, W, d):
                 # the prescribed time lags behind t (interval shorter than a step): which boundaries get a snapshot is
                 # not prescribed, but one state is never written twice
                 stats["lagging"] += 1
-                dup = sorted({g for g in got if got.count(g) > 1})
+                # (a reversal of the direction of integration writes a second snapshot at the turning point with the other
+                #  sign of dt: a different state, not counted)
+                evs_ = [e_ for e_ in meta["events"] if isinstance(e_, dict) and "hb" in e_ and e_["auto"] is not None]
+                sgn_of = [e_.get("dir", 1) for e_ in evs_ for _ in range(e_["nnew"])]
+                gotd = [g + (sgn_of[i_] if i_ < len(sgn_of) else 0,) for i_, g in enumerate(got)]
+                dup = sorted({g[:2] for g in gotd if gotd.count(g) > 1})
                 if dup:
+                    stats.setdefault("duplicate_examples", [])
+                    if len(stats["duplicate_examples"]) < 4:
+                        stats["duplicate_examples"].append(dict(dup=dup[:3], integrator=hist["init"]["integrator"], ops=[o for o in hist["ops"] if o[0] in ("auto_interval", "integrate", "auto_step")][:8],
+                                                               dirs=dirs, vals=[sg["val"] for sg in segs][:3]))
                     V(K_DUP, "automatic snapshots are written twice at the same (steps_done, t) %s: the prescribed time lags behind t (interval %s "
                       "shorter than a step) and the heartbeat runs twice at the same time (end of one integrate(), start of the next)" % (
                           dup[:4], [sg["val"] for sg in segs][:1]), rep)
@@ -938,8 +949,23 @@ def _run(c, rebound, exe, W, d):
     # pairwise covering array over the explicit factors (fixed array; quick = seed-rotated slice, thorough = all rows)
     prow_all = ac.covering_array(ac.C06_FACTORS, ac.c06_excluded, SplitMix(20260930), 120)
     tracker = ac.PairTracker(ac.C06_FACTORS, ac.c06_excluded)
+    # 3-way for the factors closest to the delta encoder: (first snapshot with/without the lazily allocated arrays, event A,
+    # event B) - every admissible triple gets a row (thorough tier), integrator / restore path rotating
+    F6 = ac.C06_FACTORS
+    tri_all, tri_rows, tri_done = [], [], set()
+    for f_ in F6["first"]:
+        for a_ in F6["eventA"]:
+            for b_ in F6["eventB"]:
+                for i_ in range(len(F6["integrator"])):
+                    row = dict(integrator=F6["integrator"][(len(tri_all) + i_) % len(F6["integrator"])], first=f_, cadence="manual", eventA=a_, eventB=b_,
+                               roles=("variational" if a_ == "lrescale" else "plain"), restore=F6["restore"][len(tri_all) % len(F6["restore"])])
+                    ks_ = sorted(row)
+                    if not any(ac.c06_excluded(x_, row[x_], y_, row[y_]) for ix_, x_ in enumerate(ks_) for y_ in ks_[ix_ + 1:]):
+                        tri_all.append((f_, a_, b_))
+                        tri_rows.append(row)
+                        break
     if c.thorough:
-        prows = list(prow_all)
+        prows = list(prow_all) + tri_rows
     else:
         nsl = 84
         off = ((c.seed - 1) * nsl) % len(prow_all)
@@ -961,6 +987,8 @@ def _run(c, rebound, exe, W, d):
             hist = ac.gen_history(rng, rng.randint(1, maxapp))
         wd = os.path.join(W, "h%d" % hi)
         os.makedirs(wd)
+        if cad_repaired:
+            hist["cad_repaired"] = True
         rc = ac.fork_run(ac.run_history, rebound, hist, wd)
         mp = os.path.join(wd, "meta.json")
         stats["histories"] += 1
@@ -1031,9 +1059,13 @@ def _run(c, rebound, exe, W, d):
         flush(batch)
     c.cov.update(stats)
     c.cov["pairs"] = tracker.report()
-    if c.thorough and c.cov["pairs"]["covered"] < c.cov["pairs"]["total"] and time.time() - t_start < budget:
+    c.cov["pairs"]["triples_first_eventA_eventB"] = dict(covered=len(tri_done & set(tri_all)), total=len(tri_all),
+                                                         missing=sorted(set(tri_all) - tri_done)[:12])
+    if c.thorough and c.cov["pairs"]["covered"] < c.cov["pairs"]["total"]:
         c.broken.append("pairwise coverage of the history factors incomplete: %d of %d pairs; missing e.g. %s" % (
             c.cov["pairs"]["covered"], c.cov["pairs"]["total"], c.cov["pairs"]["missing"][:5]))
+    if c.thorough and len(tri_done & set(tri_all)) < len(tri_all):
+        c.broken.append("3-way coverage (first, eventA, eventB) incomplete: missing %s" % sorted(set(tri_all) - tri_done)[:8])
     c.cov["dimensions"] = dict(sorted(dims.items()))
     # ---- public entry points (extracted from the source under test): each must have run at least once
     c_seen, py_seen = ac.read_entry_trace(elog)
